@@ -16,22 +16,32 @@ SharedFaults == {SharedFault(S, s) : S \in {T \in SUBSET FileSet : Cardinality(T
 C10WorldsFull == {[fs0 |-> a, force |-> b, fault |-> c, missing |-> m] :
                     a \in [FileSet -> InitStates], b \in [FileSet -> BOOLEAN],
                     c \in AllStageFaults \cup SharedFaults \cup {NoFault}, m \in BOOLEAN}
-C10WorldsQuick == {x \in C10WorldsFull : x.missing => x.fault = NoFault}
+\* Frame over the module files: an untidy-but-resolvable module, output paths absent or occupied, with and without force
+C10UntidyWorlds == {[fs0 |-> a, force |-> b, fault |-> InputFault("untidy-module", "pkg", p, "among", ft), missing |-> FALSE] :
+                      a \in [FileSet -> {"absent", "user"}], b \in {NoForce, AllForce}, p \in {"first", "last"}, ft \in UntidyFeatures}
+C10WorldsQuick == {x \in C10WorldsFull : x.missing => x.fault = NoFault} \cup C10UntidyWorlds
 \* quick model check: "gen" and "user" content are the same thing to the model (the difference only exists for the
 \* real code, and the case export keeps both)
 C10WorldsMCQuick == {x \in C10WorldsQuick : \A f \in FileSet : x.fs0[f] # "gen"}
+C10WorldsThorough == C10WorldsFull \cup C10UntidyWorlds
 
 \* C09: every invalid-input class x every level it can be written at x first/last package x alone/among valid
 \* ones, plus the fault-free world
 C09Worlds == {[fs0 |-> AllAbsent, force |-> NoForce, fault |-> NoFault, missing |-> FALSE]} \cup
              UNION {{[fs0 |-> AllAbsent, force |-> NoForce, fault |-> InputFault(c, l, p, x, "-"), missing |-> FALSE] :
-                       l \in ClassLevels(c), p \in {"first", "last"}, x \in {"alone", "among"}} : c \in InputClasses}
+                       l \in ClassLevels(c), p \in {"first", "last"}, x \in {"alone", "among"}} : c \in InputClasses \ {"untidy-module"}}
+             \* the spellings of the conflict classes, and the untidy-module shapes
+             \cup UNION {{[fs0 |-> AllAbsent, force |-> NoForce, fault |-> InputFault(c, l, p, x, ft), missing |-> FALSE] :
+                       l \in ClassLevels(c), p \in {"first", "last"}, x \in {"alone", "among"}, ft \in ConflictFeatures(c) \ {"-"}} :
+                       c \in {"conflict-srcpkg", "conflict-pkgname", "conflict-template"}}
+             \cup {[fs0 |-> AllAbsent, force |-> NoForce, fault |-> InputFault("untidy-module", "pkg", p, x, ft), missing |-> FALSE] :
+                       p \in {"first", "last"}, x \in {"alone", "among"}, ft \in UntidyFeatures}
              \* COMBINATIONS: a package that fails to load which also has an unusual-but-valid trait
              \cup {[fs0 |-> AllAbsent, force |-> NoForce, fault |-> InputFault(c, "pkg", "first", x, ft), missing |-> FALSE] :
                        c \in PkgErrClasses, x \in {"alone", "among"}, ft \in PkgFeatures}
 \* C09 x C10 (thorough tier): an invalid input while output paths are occupied, with and without force-file-write
 C09WorldsOccupied == UNION {{[fs0 |-> a, force |-> b, fault |-> InputFault(c, l, p, "among", "-"), missing |-> FALSE] :
                        l \in ClassLevels(c), p \in {"first", "last"},
-                       a \in [FileSet -> {"absent", "user"}], b \in {NoForce, AllForce}} : c \in InputClasses}
+                       a \in [FileSet -> {"absent", "user"}], b \in {NoForce, AllForce}} : c \in InputClasses \ {"untidy-module"}}
 C09WorldsThorough == C09Worlds \cup C09WorldsOccupied
 =============================================================================
